@@ -22,7 +22,8 @@ type MClient struct {
 	// Matchers: Go filter matchers registered on this client\'s native
 	// interpreter: table + "|" + filter text -> constant answer
 	Matchers map[string]bool
-	Panicky  map[string]bool // registered matchers that panic when called
+	Panicky  map[string]bool   // registered matchers that panic when called
+	Updaters map[string]string // table + "|" + update text -> "panic" | "set": registered Go updaters
 }
 
 // Model is the whole simulated world.
@@ -47,6 +48,12 @@ func (m *Model) Clone() *Model {
 			nc.Matchers = map[string]bool{}
 			for k, v := range c.Matchers {
 				nc.Matchers[k] = v
+			}
+		}
+		if c.Updaters != nil {
+			nc.Updaters = map[string]string{}
+			for k, v := range c.Updaters {
+				nc.Updaters[k] = v
 			}
 		}
 		if c.Panicky != nil {
@@ -363,6 +370,12 @@ func (m *Model) Apply(cmd *Cmd) Expect {
 			c.Matchers[cmd.T+"|"+FilterText(cmd)] = cmd.Verdict
 			delete(c.Panicky, cmd.T+"|"+FilterText(cmd))
 		}
+		if cmd.Op == "Native" && (cmd.Native == "updater-panic" || cmd.Native == "updater-set") {
+			if c.Updaters == nil {
+				c.Updaters = map[string]string{}
+			}
+			c.Updaters[cmd.T+"|"+UpdText(cmd)] = strings.TrimPrefix(cmd.Native, "updater-")
+		}
 		if cmd.Op == "Native" && cmd.Native == "matcher-panic" {
 			if c.Panicky == nil {
 				c.Panicky = map[string]bool{}
@@ -429,9 +442,24 @@ func (m *Model) Apply(cmd *Cmd) Expect {
 			return Expect{Out: ccf(cur, cmd.RetOnFail)}
 		}
 		if c.Native {
-			// native interpreter active and the harness registers no updater:
-			// the update fails with the unsupported-feature error, nothing changes
-			return Expect{AnyFail: true}
+			switch c.Updaters[cmd.T+"|"+UpdText(cmd)] {
+			case "set":
+				// the registered Go updater is what the operation uses: it sets a
+				base := cur.Clone()
+				if base == nil {
+					base = keyOf(t.Def, cmd.Key)
+				}
+				base["a"] = S("native-updater")
+				if indexProblem(t.Def, base) {
+					return Expect{Out: Outcome{Class: "validation"}}
+				}
+				t.Items[id] = base
+				return Expect{Out: Outcome{Class: "ok", Item: base.Clone()}, Applied: true}
+			default:
+				// no updater registered for this table and text (unsupported-feature
+				// error), or one that panics: the call fails, nothing changes
+				return Expect{AnyFail: true}
+			}
 		}
 		for _, tg := range cmd.Upd.Targets() {
 			for _, k := range t.Def.KeyAttrs() {
